@@ -305,6 +305,7 @@ FEATURES = [
     "const p={a:1,z:0}; const c=Object.create(p); c.b=2; c.z=9; Object.defineProperty(c,'hid',{value:1,enumerable:false}); p.hid=5; const ks=[]; for (const k in c) ks.push(k); class P1 { x=1; m(){} } class Q1 extends P1 { y=K; } for (const k in new Q1()) ks.push(k); for (const k in Object.create([7,8])) ks.push(k); for (const k in 'ab') ks.push(k); out(ks, Object.keys(Object.prototype).length, Object.keys(Array.prototype).length, Object.keys(P1.prototype).length);",
     "function G1(a,b){ this.v=a+b } const B1=G1.bind(null,K); const BB=B1.bind(null,J); const o1=new B1(1), o2=new BB(); out(o1.v, o2.v, o1 instanceof B1, o1 instanceof G1, o2 instanceof BB, ({}) instanceof B1, Object.getPrototypeOf(o2)===G1.prototype, B1.name, BB.length);",
     "const jobOrder=[]; let res1; const pj=new Promise(r=>{ res1=r }); pj.then(()=>jobOrder.push('a')).then(()=>jobOrder.push('c')); pj.then(()=>jobOrder.push('b')); res1(K); jobOrder.push('sync'); Promise.resolve().then(()=>jobOrder.push('m')); jobOrder.push('after'); out(jobOrder);",
+    "const aggOut=[]; Promise.any([Promise.reject(K), Promise.reject(J)]).catch(e=>{ aggOut.push(typeof AggregateError, e instanceof Error, e && e.name, e && e.errors) }); Promise.any([]).catch(e=>{ aggOut.push(e && e.name, e && e.errors && e.errors.length) }); out(aggOut);",
     "function outer(){ const args=[...arguments]; const arrow=()=>arguments.length; return [args, arrow()] } out(outer(K,J,S));",
     "function fact(n){ return n<=1?1:n*fact(n-1) } out(fact(K+5)); const fib=n=>n<2?n:fib(n-1)+fib(n-2); out(fib(K+10));",
     "function dflt(a, b=a+K, c=()=>a+b){ a=J; return [a,b,c()] } out(dflt(1), dflt(1,2), dflt(undefined, undefined));",
